@@ -15,6 +15,22 @@ What is read from the source, and what it becomes:
   grid_unsafe.rs           Grid::{new,get,set}                 -> `UnsafeGrid.*` (the `initialized` flag is modelled; the
                                                                  raw-pointer write is a plain write to the same storage)
 
+Accepted spellings (normalised to the same generated definitions; each normalisation is an identity of the meaning):
+  storage_array_*.rs   `&self[i][j]…` or the same chain taken stepwise through references to the sub-arrays,
+                       `let a = &self[i]; let b = &a[j]; &b[k]` (set: `&mut`, then `b[k] = v`) — indexing through a reference to
+                       a sub-array addresses the same cells in the same order; every such local must be used exactly
+                       once (an unused one would add a bounds check the address list does not show). The value
+                       parameter of `set` may have any name; a trailing `;` is immaterial.
+  mod.rs               `ArrayGrid::V(g)` / `Self::V(g)` patterns with any binder; in `new`, `T::default()` may be bound to a
+                       local first (`T: Copy`: the same value) and an arm may be a block binding the array to a local.
+  grid_*.rs            `if c { A } else { B }`, `if !c { B } else { A }` and the early-return forms `if !c { return B; } A` /
+                       `if c { return A; } B` are one tree; `black_box(x)` is the identity (std::hint); a `RefCell` guard or the
+                       reference returned by `Storage::get` may be bound to a local first; the raw pointer to the storage may
+                       be spelled `&self.storage as *const S as *mut S` or `std::ptr::addr_of!(self.storage).cast_mut()` and
+                       may be derived before or after `black_box(value)`; the memory ordering of the flag load is
+                       not modelled (sequential code). Field names do not matter: the storage field (type `S` /
+                       `RefCell<S>`) is called `storage`, a single `AtomicBool` field `initialized` in the generated structure.
+
 The semantics of nested Rust array indexing (`a[i][j]` panics unless every index is below the length of its
 level; a store changes exactly the addressed cell) is the fixed prelude `Cells/inb/readAt/writeAt` below — that part is
 assumed (DESIGN §3), not derived. Anything outside the recognised shapes raises Unsupported (fail closed).
@@ -22,6 +38,7 @@ assumed (DESIGN §3), not derived. Anything outside the recognised shapes raises
 import re
 from rsexpr import Unsupported, strip_comments, parse_expr, split_statements, find_fn
 from rs2lean_adjustable import parse_point_ctors, point_lean
+from rsblock import parse_body, fn_items, split_top, strip_blocks
 
 G = 'dcl_data_structures/src/grid_type/'
 COORDS = ('x', 'y', 'z', 't')
@@ -77,22 +94,58 @@ def parse_storage(repo, k):
     nesting = array_nesting(m.group(2))
     if len(nesting) != k or sorted(nesting) != sorted(names) or len(set(nesting)) != k:
         raise Unsupported(f'{f}: impl is for {norm(m.group(2))}, expected a {k}-fold nested array over its own const parameters')
-    # get
-    sig, body = find_fn(src, 'get')
-    if norm(sig) != 'fn get(&self, p: PointIndex) -> &T':
-        raise Unsupported(f + ': get signature ' + sig)
-    a = parse_expr(norm(body))
-    if a[0] != 'ref':
-        raise Unsupported(f + ': get body is not `&self[..]…`')
-    get_idx = index_chain(a[1], 'p')
-    # set
-    sig, body = find_fn(src, 'set')
-    if norm(sig) != 'fn set(&mut self, p: PointIndex, elem: T)':
-        raise Unsupported(f + ': set signature ' + sig)
-    ms = re.fullmatch(r'(self(?:\[[^\]=]*\])+) = elem;?', norm(body))
-    if not ms:
-        raise Unsupported(f + ': set body is not `self[..]… = elem`: ' + norm(body))
-    set_idx = index_chain(parse_expr(ms.group(1)), 'p')
+    # get / set: the place expression, possibly taken stepwise through references
+    def coord(i):
+        if not (i[0] == 'field' and i[1] == ('path', ['p']) and i[2] in COORDS):
+            raise Unsupported(f + ': index expression is not a coordinate of the point: ' + repr(i)[:60])
+        return i[2]
+
+    def place(a, refs, used):
+        """AST of `root[i]…` -> index list from `self`, outermost first; root is `self` or a reference local"""
+        idx = []
+        while a[0] == 'index':
+            idx.append(coord(a[2]))
+            a = a[1]
+        idx.reverse()
+        if a == ('path', ['self']):
+            return idx
+        if a[0] == 'path' and len(a[1]) == 1 and a[1][0] in refs:
+            if a[1][0] in used:
+                raise Unsupported(f'{f}: reference `{a[1][0]}` is used more than once')
+            used.add(a[1][0])
+            return refs[a[1][0]] + idx
+        raise Unsupported(f + ': indexing something other than self or a reference into it')
+
+    def body_of(name, want_sig, mutable):
+        its = [it for it in fn_items(src) if it['name'] == name]
+        if len(its) != 1:
+            raise Unsupported(f'{f}: expected exactly one fn {name}')
+        it = its[0]
+        sig = norm(it['sig'])
+        ms = re.fullmatch(want_sig, sig)
+        if not ms:
+            raise Unsupported(f'{f}: {name} signature ' + sig)
+        blk = parse_body(it['body'])
+        refs, used = {}, set()
+        for st in blk[1][:-1] if (mutable and blk[2] is None) else blk[1]:
+            if st[0] != 'let' or st[1][0] != 'id' or st[3][0] != 'ref' or st[1][1] in refs:
+                raise Unsupported(f'{f}: {name}: statement outside the recognised grammar: ' + repr(st)[:100])
+            refs[st[1][1]] = place(st[3][1], refs, used)
+        return blk, refs, used, ms
+
+    blk, refs, used, _ = body_of('get', r'fn get\(&self, p: PointIndex\) -> &T', False)
+    if blk[2] is None or blk[2][0] != 'ref':
+        raise Unsupported(f + ': get body does not end in `&self[..]…`')
+    get_idx = place(blk[2][1], refs, used)
+    if set(refs) != used:
+        raise Unsupported(f'{f}: get: unused reference(s) {sorted(set(refs) - used)}')
+    blk, refs, used, ms = body_of('set', r'fn set\(&mut self, p: PointIndex, (\w+): T\)', True)
+    last = blk[1][-1] if blk[2] is None and blk[1] else None
+    if last is None or last[0] != 'assign' or last[2] != ('path', [ms.group(1)]):
+        raise Unsupported(f + ': set body does not end in `self[..]… = <value parameter>`')
+    set_idx = place(last[1], refs, used)
+    if set(refs) != used:
+        raise Unsupported(f'{f}: set: unused reference(s) {sorted(set(refs) - used)}')
     if len(get_idx) != k or len(set_idx) != k:
         raise Unsupported(f'{f}: {k}-fold array indexed {len(get_idx)}/{len(set_idx)} times')
     return nesting, get_idx, set_idx
@@ -150,42 +203,90 @@ def parse_array_grid(repo):
         variants[k] = (mv.group(1), nest, arr)
     if sorted(variants) != [1, 2, 3, 4]:
         raise Unsupported('mod.rs: expected variants ArrayGrid1D…4D')
+    fns = {}
+    for it in fn_items(src):
+        if it['name'] in ('new', 'get', 'set'):
+            if it['name'] in fns:
+                raise Unsupported(f'mod.rs: fn {it["name"]} defined twice')
+            fns[it['name']] = it
+    if set(fns) != {'new', 'get', 'set'}:
+        raise Unsupported('mod.rs: ArrayGrid::new / get / set not found')
     # new
-    sig, body = find_fn(src, 'new')
-    if norm(sig) != 'fn new(array_type: ArrayType) -> ArrayGrid<T, W, H, D, C>':
-        raise Unsupported('mod.rs: ArrayGrid::new signature ' + sig)
-    mm = re.fullmatch(r'match array_type \{(.*)\}', norm(body))
-    if not mm:
-        raise Unsupported('mod.rs: ArrayGrid::new body')
-    arms = [a.strip() for a in re.split(r',\s*(?=ArrayType::)', mm.group(1)) if a.strip()]
+    it = fns['new']
+    ms = re.fullmatch(r'fn new\((\w+): ArrayType\) -> (?:ArrayGrid<T, W, H, D, C>|Self)', norm(it['sig']))
+    if not ms:
+        raise Unsupported('mod.rs: ArrayGrid::new signature ' + norm(it['sig']))
+    blk = parse_body(it['body'])
+    defaults = set()                    # locals holding `T::default()` (`T: Copy`: the same value wherever it is used)
+
+    def is_default(a):
+        return a == ('call', ('path', ['T', 'default']), []) or (a[0] == 'path' and len(a[1]) == 1 and a[1][0] in defaults)
+
+    def nesting_of(a, arrays):
+        """AST of `[[d; W]; H]` -> ['H', 'W'] (outermost first)"""
+        if a[0] == 'path' and len(a[1]) == 1 and a[1][0] in arrays:
+            return arrays[a[1][0]]
+        out = []
+        while a[0] == 'repeat':
+            if not (a[2][0] == 'path' and len(a[2][1]) == 1 and a[2][1][0] in CONSTS):
+                raise Unsupported('mod.rs: ArrayGrid::new: array length ' + repr(a[2])[:40])
+            out.append(a[2][1][0])
+            a = a[1]
+        if not out or not is_default(a):
+            raise Unsupported('mod.rs: ArrayGrid::new: not an all-default array: ' + repr(a)[:60])
+        return out
+    for st in blk[1]:
+        if st[0] == 'let' and st[1][0] == 'id' and st[3] == ('call', ('path', ['T', 'default']), []):
+            defaults.add(st[1][1])
+        else:
+            raise Unsupported('mod.rs: ArrayGrid::new: statement ' + repr(st)[:80])
+    t = blk[2]
+    if t is None or t[0] != 'match' or t[1] != ('path', [ms.group(1)]):
+        raise Unsupported('mod.rs: ArrayGrid::new body is not a match on its argument')
     seen = set()
-    for arm in arms:
-        arm = arm.rstrip(',').strip()
-        ma = re.fullmatch(r'ArrayType::Array(\d)D => ArrayGrid::ArrayGrid(\d)D\((?:Grid|\w+::<T, [\w, ]+>)::new\( ?(\[.*\]),? ?\)\)', arm)
-        if not ma or ma.group(1) != ma.group(2):
-            raise Unsupported('mod.rs: ArrayGrid::new arm ' + arm)
-        k = int(ma.group(1))
-        if array_nesting(ma.group(3), elem='T::default()') != variants[k][1]:
-            raise Unsupported(f'mod.rs: ArrayGrid::new builds {ma.group(3)} for variant {k}')
+    for pat, body in t[2]:
+        mp = re.fullmatch(r'ArrayType :: Array(\d)D', pat)
+        if not mp or int(mp.group(1)) in seen:
+            raise Unsupported('mod.rs: ArrayGrid::new arm ' + pat)
+        k = int(mp.group(1))
+        arrays = {}
+        if body[0] == 'block':
+            for st in body[1]:
+                if st[0] != 'let' or st[1][0] != 'id':
+                    raise Unsupported('mod.rs: ArrayGrid::new arm statement ' + repr(st)[:80])
+                arrays[st[1][1]] = nesting_of(st[3], arrays)
+            body = body[2]
+        ok = (body is not None and body[0] == 'call' and body[1][0] == 'path' and body[1][1] in (['ArrayGrid', f'ArrayGrid{k}D'], ['Self', f'ArrayGrid{k}D'])
+              and len(body[2]) == 1)
+        inner = body[2][0] if ok else None
+        if not ok or inner[0] != 'call' or inner[1][0] != 'path' or len(inner[2]) != 1 or inner[1][1][-1] != 'new' or \
+                not (inner[1][1] == ['Grid', 'new'] or (len(inner[1][1]) == 3 and inner[1][1][0] in alias and
+                                                         re.fullmatch(r'<T(,\w+)*>', inner[1][1][1]))):
+            raise Unsupported(f'mod.rs: ArrayGrid::new arm for {pat}: ' + repr(body)[:100])
+        # (the type checker ties the array handed to Grid::new to the variant's payload type; the nesting is compared anyway)
+        if nesting_of(inner[2][0], arrays) != variants[k][1]:
+            raise Unsupported(f'mod.rs: ArrayGrid::new builds another array than variant {k} holds')
         seen.add(k)
     if seen != {1, 2, 3, 4}:
         raise Unsupported('mod.rs: ArrayGrid::new does not cover all four array types')
     # get / set dispatch
-    for fname, sigw, call in (('get', 'fn get(&self, p: PointIndex) -> T', 'grid.get(p)'),
-                              ('set', 'fn set(&self, p: PointIndex, value: T)', 'grid.set(p, value)')):
-        sig, body = find_fn(src, fname)
-        if norm(sig) != sigw:
-            raise Unsupported(f'mod.rs: ArrayGrid::{fname} signature ' + sig)
-        mm = re.fullmatch(r'match self \{(.*)\}', norm(body))
-        if not mm:
-            raise Unsupported(f'mod.rs: ArrayGrid::{fname} body')
-        arms = [a.strip().rstrip(',') for a in mm.group(1).split('ArrayGrid::ArrayGrid') if a.strip()]
+    for fname, sigw in (('get', r'fn get\(&self, (\w+): PointIndex\) -> T'),
+                        ('set', r'fn set\(&self, (\w+): PointIndex, (\w+): T\)')):
+        it = fns[fname]
+        ms = re.fullmatch(sigw, norm(it['sig']))
+        if not ms:
+            raise Unsupported(f'mod.rs: ArrayGrid::{fname} signature ' + norm(it['sig']))
+        blk = parse_body(it['body'])
+        t = blk[2]
+        if blk[1] or t is None or t[0] != 'match' or t[1] != ('path', ['self']):
+            raise Unsupported(f'mod.rs: ArrayGrid::{fname} body is not a match on self')
         got = set()
-        for arm in arms:
-            ma = re.fullmatch(r'(\d)D\(grid\) => (.*)', arm)
-            if not ma or ma.group(2).strip() != call:
-                raise Unsupported(f'mod.rs: ArrayGrid::{fname} arm ArrayGrid::ArrayGrid{arm}')
-            got.add(int(ma.group(1)))
+        for pat, body in t[2]:
+            mp = re.fullmatch(r'(?:ArrayGrid|Self) :: ArrayGrid(\d)D \( (\w+) \)', pat)
+            want = ('mcall', ('path', [mp.group(2)]), fname, [('path', [g]) for g in ms.groups()]) if mp else None
+            if not mp or strip_blocks(body) != want or int(mp.group(1)) in got:
+                raise Unsupported(f'mod.rs: ArrayGrid::{fname} arm {pat}')
+            got.add(int(mp.group(1)))
         if got != {1, 2, 3, 4}:
             raise Unsupported(f'mod.rs: ArrayGrid::{fname} does not cover all variants')
     return variants
@@ -194,114 +295,167 @@ def parse_array_grid(repo):
 # ----------------------------------------------------------------------------------------------
 # Grid<S, T> of grid_safe.rs / grid_unsafe.rs
 # ----------------------------------------------------------------------------------------------
-def split_if_else(text):
-    """`if C { A } else { B }` -> (C, A, B) or None"""
-    m = re.match(r'if (.+?) \{', text)
-    if not m:
-        return None
-
-    def block(text, i):
-        depth, j = 1, i
-        while depth:
-            if j >= len(text):
-                raise Unsupported('unbalanced braces')
-            depth += (text[j] == '{') - (text[j] == '}')
-            j += 1
-        return text[i:j - 1].strip(), j
-    a, j = block(text, m.end())
-    rest = text[j:].strip()
-    m2 = re.match(r'else \{', rest)
-    if not m2:
-        return None
-    b, j2 = block(rest, m2.end())
-    if rest[j2:].strip():
-        return None
-    return m.group(1), a, b
-
-
 class GridTr:
-    """translates the bodies of Grid::get / Grid::set; `lean` is the structure name"""
+    """translates the bodies of Grid::get / Grid::set as control-flow trees. `fields`: Rust field name -> role
+    ('refcell' | 'plain' storage, 'flag', 'marker'); `flagname`: Rust flag field -> Lean field"""
 
-    def __init__(self, lean, fields, where):
-        self.lean, self.fields, self.where = lean, fields, where
+    def __init__(self, lean, fields, flagname, where):
+        self.lean, self.fields, self.flagname, self.where = lean, fields, flagname, where
+        self.storage = next(n for n, t in fields.items() if t in ('refcell', 'plain'))
+        self.cell = fields[self.storage] == 'refcell'
 
     def fail(self, msg):
         raise Unsupported(f'{self.where}: {msg}')
 
-    def get_block(self, text, indent):
-        """a block that evaluates to a `T`: returns Lean lines computing `Option Int`"""
-        ie = split_if_else(text)
-        if ie:
-            c, a, b = ie
-            mc = re.fullmatch(r'self\.(\w+)\.load\(Ordering::\w+\)', c)
-            if not mc or self.fields.get(mc.group(1)) != 'flag':
-                self.fail('condition ' + c)
-            return ([f'{indent}if self.{mc.group(1)} then'] + self.get_block(a, indent + '  ') +
-                    [f'{indent}else'] + self.get_block(b, indent + '  '))
-        lines, refs = [], {}
-        stmts = split_statements(text)
-        for n, st in enumerate(stmts):
-            last = n == len(stmts) - 1
-            m = re.fullmatch(r'let (\w+) = self\.storage(\.borrow\(\))?\.get\(p\);', st)
-            if m and not last:
-                self.check_borrow(m.group(2))
-                lines.append(f'{indent}match Storage.get k e self.storage p with')
-                lines.append(f'{indent}| none => none')
-                lines.append(f'{indent}| some {m.group(1)} =>')
-                refs[m.group(1)] = True
-                continue
-            m = re.fullmatch(r'black_box\((\w+)\);', st)
-            if m and not last and (m.group(1) in refs or m.group(1) == 'value'):
-                lines.append(f'{indent}-- black_box({m.group(1)}): optimisation barrier, no effect')
-                continue
-            if last:
-                m = re.fullmatch(r'\*(\w+)', st)
-                if m and m.group(1) in refs:
-                    return lines + [f'{indent}some {m.group(1)}']
-                m = re.fullmatch(r'\*self\.storage(\.borrow\(\))?\.get\(p\)', st)
-                if m:
-                    self.check_borrow(m.group(1))
-                    return lines + [f'{indent}Storage.get k e self.storage p']
-                if st == 'T::default()':
-                    return lines + [f'{indent}some 0']
-            self.fail('statement outside the recognised grammar: ' + st)
-        self.fail('empty block')
+    def is_field(self, a, name):
+        return a == ('field', ('path', ['self']), name)
 
-    def check_borrow(self, borrow):
-        cell = self.fields['storage'] == 'refcell'
-        if bool(borrow) != cell:
-            self.fail('storage access does not match the field type (RefCell borrow vs plain field)')
+    # ---- get ----------------------------------------------------------------------------------
+    def storage_ref(self, a, env):
+        """an expression denoting (a shared borrow of) the storage"""
+        if self.cell:
+            if a == ('mcall', ('field', ('path', ['self']), self.storage), 'borrow', []):
+                return True
+            return a[0] == 'path' and len(a[1]) == 1 and env.get(a[1][0]) == 'guard'
+        return self.is_field(a, self.storage)
 
-    def set_block(self, text, indent):
+    def storage_get(self, a, env):
+        """`<storage>.get(p)`"""
+        return a[0] == 'mcall' and a[2] == 'get' and a[3] == [('path', [self.p])] and self.storage_ref(a[1], env)
+
+    def unbox(self, a):
+        """black_box(x) = x (std::hint::black_box is the identity function)"""
+        while a[0] == 'call' and a[1] in (('path', ['black_box']), ('path', ['std', 'hint', 'black_box']), ('path', ['hint', 'black_box'])) \
+                and len(a[2]) == 1:
+            a = a[2][0]
+        return a[1] if a[0] == 'paren' else a
+
+    def flag_cond(self, c):
+        """`self.<flag>.load(Ordering::_)` / its negation -> (Lean field, positive?)"""
+        pos = True
+        while c[0] in ('not', 'paren'):
+            if c[0] == 'not':
+                pos = not pos
+            c = c[1]
+        if (c[0] == 'mcall' and c[2] == 'load' and c[1][0] == 'field' and c[1][1] == ('path', ['self'])
+                and self.fields.get(c[1][2]) == 'flag' and len(c[3]) == 1 and c[3][0][0] == 'path' and c[3][0][1][:1] == ['Ordering']):
+            return self.flagname[c[1][2]], pos
+        self.fail('condition ' + repr(c)[:80])
+
+    def value(self, a, env, indent):
+        """an expression of type T -> Lean lines computing `Option Int`"""
+        if a == ('call', ('path', ['T', 'default']), []):
+            return [f'{indent}some 0']
+        if a[0] == 'deref':
+            r = self.unbox(a[1])
+            if r[0] == 'path' and len(r[1]) == 1 and env.get(r[1][0], ('', ''))[0] == 'cellref':
+                return [f'{indent}some {env[r[1][0]][1]}']
+            if self.storage_get(r, env):
+                return [f'{indent}Storage.get k e self.storage p']
+        self.fail('value expression outside the recognised grammar: ' + repr(a)[:100])
+
+    def get_seq(self, stmts, tail, env, indent, cont):
+        lines = []
+        for i, st in enumerate(stmts):
+            def rest(i=i):
+                return self.get_seq(stmts[i + 1:], tail, dict(env), indent, cont)
+            if st[0] == 'let' and st[1][0] == 'id':
+                name, rhs = st[1][1], st[3]
+                if self.cell and rhs == ('mcall', ('field', ('path', ['self']), self.storage), 'borrow', []):
+                    env[name] = 'guard'
+                    lines.append(f'{indent}-- {name}: shared borrow of the RefCell (plain access: calls are sequential)')
+                    continue
+                r = self.unbox(rhs)
+                if self.storage_get(r, env):
+                    lean = name if re.fullmatch(r'[a-z]\w*', name) and name not in ('self', 'p', 'k', 'e', 'none', 'some') else 'cell'
+                    env[name] = ('cellref', lean)
+                    lines += [f'{indent}match Storage.get k e self.storage p with', f'{indent}| none => none', f'{indent}| some {lean} =>']
+                    continue
+                self.fail('let outside the recognised grammar: ' + repr(st)[:100])
+            if st[0] == 'expr' and st[1][0] == 'call' and self.unbox(st[1]) != st[1]:
+                x = self.unbox(st[1])
+                if x[0] == 'path' and len(x[1]) == 1 and (env.get(x[1][0], ('', ''))[0] == 'cellref' or x[1][0] == getattr(self, 'v', None)):
+                    lines.append(f'{indent}-- black_box({x[1][0]}): optimisation barrier, no effect')
+                    continue
+                self.fail('black_box of ' + repr(x)[:60])
+            if st[0] == 'return':
+                if st[1] is None or i + 1 < len(stmts) or tail is not None:
+                    self.fail('return without value / unreachable statements after return')
+                return lines + self.value(st[1], env, indent)
+            if st[0] == 'expr' and st[1][0] == 'if':
+                return lines + self.get_if(st[1], env, indent, rest)
+            self.fail('statement outside the recognised grammar: ' + repr(st)[:100])
+        if tail is not None:
+            if tail[0] == 'if':
+                return lines + self.get_if(tail, env, indent, None)
+            return lines + self.value(tail, env, indent)
+        if cont is None:
+            self.fail('control reaches the end of a block that must produce the value')
+        return lines + cont()
+
+    def get_if(self, e, env, indent, cont):
+        flag, pos = self.flag_cond(e[1])
+        then = lambda ind: self.get_seq(e[2][1], e[2][2], dict(env), ind, cont and (lambda: cont_at(ind)))
+        def cont_at(ind):
+            return self.reindent(cont(), indent, ind)
+        if e[3] is None:
+            if cont is None:
+                self.fail('`if` without `else` where a value is required')
+            els = lambda ind: cont_at(ind)
+        elif e[3][0] == 'if':
+            els = lambda ind: self.get_if(e[3], dict(env), ind, cont and (lambda: cont_at(ind)))
+        else:
+            els = lambda ind: self.get_seq(e[3][1], e[3][2], dict(env), ind, cont and (lambda: cont_at(ind)))
+        a, b = (then, els) if pos else (els, then)           # `if !c { A } else { B }` = `if c { B } else { A }`
+        return [f'{indent}if self.{flag} then'] + a(indent + '  ') + [f'{indent}else'] + b(indent + '  ')
+
+    @staticmethod
+    def reindent(lines, old, new):
+        return [new + l[len(old):] if l.startswith(old) else l for l in lines]
+
+    # ---- set ----------------------------------------------------------------------------------
+    def set_block(self, blk, indent):
         """returns Lean lines computing `Option <Grid>`"""
-        stmts = split_statements(text)
-        if len(stmts) == 1:
-            m = re.fullmatch(r'unsafe \{(.*)\}', stmts[0])
-            if m:
-                stmts = split_statements(m.group(1).strip())
-        lines, alias, done = [], None, False
+        stmts, tail = list(blk[1]), blk[2]
+        while len(stmts) == 1 and tail is None and stmts[0][0] == 'expr' and stmts[0][1][0] == 'unsafe':
+            stmts, tail = list(stmts[0][1][1][1]), stmts[0][1][1][2]
+        if tail is not None and tail[0] == 'unsafe' and not stmts:
+            stmts, tail = list(tail[1][1]), tail[1][2]
+        if tail is not None:
+            self.fail('set ends in an expression')
+        lines, ptrs, guards, done = [], set(), set(), False
+        sfield = ('field', ('path', ['self']), self.storage)
         for st in stmts:
             if done:
-                self.fail('statement after the store: ' + st)
-            m = re.fullmatch(r'let (\w+) = &self\.storage as \*const S as \*mut S;', st)
-            if m and self.fields['storage'] == 'plain':
-                alias = m.group(1)
-                lines.append(f'{indent}-- {m.group(1)}: raw pointer to self.storage (same cells)')
+                self.fail('statement after the store: ' + repr(st)[:80])
+            if st[0] == 'let' and st[1][0] == 'id':
+                rhs = st[3]
+                raw = (rhs == ('cast', ('cast', ('ref', sfield), '*const S'), '*mut S') or
+                       rhs == ('mcall', ('macro', 'std::ptr::addr_of', [sfield]), 'cast_mut', []) or
+                       rhs == ('mcall', ('macro', 'ptr::addr_of', [sfield]), 'cast_mut', []) or
+                       rhs == ('mcall', ('macro', 'addr_of', [sfield]), 'cast_mut', []))
+                if raw and not self.cell:
+                    ptrs.add(st[1][1])
+                    lines.append(f'{indent}-- {st[1][1]}: raw pointer to self.storage (same cells)')
+                    continue
+                if self.cell and rhs == ('mcall', sfield, 'borrow_mut', []):
+                    guards.add(st[1][1])
+                    lines.append(f'{indent}-- {st[1][1]}: exclusive borrow of the RefCell (plain access: calls are sequential)')
+                    continue
+            if st[0] == 'expr' and st[1] == ('call', ('path', ['black_box']), [('path', [self.v])]):
+                lines.append(f'{indent}-- black_box({self.v}): optimisation barrier, no effect')
                 continue
-            m = re.fullmatch(r'black_box\(value\);', st)
-            if m:
-                lines.append(f'{indent}-- black_box(value): optimisation barrier, no effect')
-                continue
-            m = re.fullmatch(r'self\.storage\.borrow_mut\(\)\.set\(p, value\);', st)
-            if m and self.fields['storage'] == 'refcell':
-                done = True
-            m2 = re.fullmatch(r'\(\*(\w+)\)\.set\(p, value\);', st)
-            if m2 and alias and m2.group(1) == alias:
-                done = True
-            if done:
-                lines.append(f'{indent}(Storage.set k e self.storage p value).map (fun s => {{ self with storage := s }})')
-                continue
-            self.fail('statement outside the recognised grammar: ' + st)
+            if st[0] == 'expr' and st[1][0] == 'mcall' and st[1][2] == 'set' and st[1][3] == [('path', [self.p]), ('path', [self.v])]:
+                tgt = st[1][1]
+                if self.cell and (tgt == ('mcall', sfield, 'borrow_mut', []) or (tgt[0] == 'path' and len(tgt[1]) == 1 and tgt[1][0] in guards)):
+                    done = True
+                if not self.cell and tgt[0] == 'paren' and tgt[1][0] == 'deref' and tgt[1][1][0] == 'path' and \
+                        len(tgt[1][1][1]) == 1 and tgt[1][1][1][0] in ptrs:
+                    done = True
+                if done:
+                    lines.append(f'{indent}(Storage.set k e self.storage p value).map (fun s => {{ self with storage := s }})')
+                    continue
+            self.fail('statement outside the recognised grammar: ' + repr(st)[:100])
         if not done:
             self.fail('set does not store')
         return lines
@@ -318,42 +472,56 @@ def parse_grid_impl(repo, fname, lean):
         if not mi:
             raise Unsupported(fname + ': field ' + item)
         n, ty = mi.group(1), mi.group(2)
-        if n == 'storage' and ty == 'RefCell<S>':
+        if ty == 'RefCell<S>':
             fields[n] = 'refcell'
-        elif n == 'storage' and ty == 'S':
+        elif ty == 'S':
             fields[n] = 'plain'
         elif ty == 'AtomicBool':
             fields[n] = 'flag'
-        elif ty == 'std::marker::PhantomData<T>':
+        elif ty in ('std::marker::PhantomData<T>', 'PhantomData<T>', 'marker::PhantomData<T>'):
             fields[n] = 'marker'
         else:
             raise Unsupported(f'{fname}: field {n}: {ty}')
-    if 'storage' not in fields:
-        raise Unsupported(fname + ': no storage field')
+    stor = [n for n, t in fields.items() if t in ('refcell', 'plain')]
+    if len(stor) != 1:
+        raise Unsupported(fname + ': expected exactly one storage field (type S or RefCell<S>)')
+    stor = stor[0]
     flags = [n for n, t in fields.items() if t == 'flag']
+    # Lean names: the storage field is `storage`; a single flag is `initialized` (consistent renaming)
+    flagname = {flags[0]: 'initialized'} if len(flags) == 1 else {fl: fl for fl in flags}
+    if 'storage' in flagname.values():
+        raise Unsupported(fname + ': a flag is called `storage`')
+    fns = {}
+    for it in fn_items(src):
+        if it['name'] in ('new', 'get', 'set'):
+            if it['name'] in fns:
+                raise Unsupported(f'{fname}: fn {it["name"]} defined twice')
+            fns[it['name']] = it
+    if set(fns) != {'new', 'get', 'set'}:
+        raise Unsupported(fname + ': Grid::new / get / set not found')
     # new
-    sig, body = find_fn(src, 'new')
-    if norm(sig) != 'fn new(storage: S) -> Self':
-        raise Unsupported(fname + ': new signature ' + sig)
-    mb = re.fullmatch(r'Self \{(.*)\}', norm(body))
-    if not mb:
-        raise Unsupported(fname + ': new body')
+    ms = re.fullmatch(r'fn new\((\w+): S\) -> Self', norm(fns['new']['sig']))
+    if not ms:
+        raise Unsupported(fname + ': new signature ' + norm(fns['new']['sig']))
+    sparam = ms.group(1)
+    blk = parse_body(fns['new']['body'])
+    t = blk[2]
+    if blk[1] or t is None or t[0] != 'struct' or t[1] not in (['Self'], ['Grid']):
+        raise Unsupported(fname + ': new body is not a single struct literal')
     init = {}
-    for item in [q.strip() for q in mb.group(1).split(',') if q.strip()]:
-        mi = re.fullmatch(r'(\w+)(?:: (.+))?', item)
-        if not mi or mi.group(1) not in fields:
-            raise Unsupported(fname + ': new initialiser ' + item)
-        n, v = mi.group(1), mi.group(2) or mi.group(1)
-        t = fields[n]
-        if t == 'refcell' and v == 'RefCell::new(storage)' or t == 'plain' and v == 'storage':
+    for n, v in t[2]:
+        if n not in fields or n in init:
+            raise Unsupported(f'{fname}: new initialiser of {n}')
+        ty = fields[n]
+        if ty == 'refcell' and v == ('call', ('path', ['RefCell', 'new']), [('path', [sparam])]) or ty == 'plain' and v == ('path', [sparam]):
             init[n] = 'storage'
-        elif t == 'flag' and re.fullmatch(r'AtomicBool::new\((true|false)\)', v):
-            init[n] = v[len('AtomicBool::new('):-1]
-        elif t == 'marker' and v == 'std::marker::PhantomData':
-            continue
+        elif ty == 'flag' and v[0] == 'call' and v[1] == ('path', ['AtomicBool', 'new']) and v[2] in ([('path', ['true'])], [('path', ['false'])]):
+            init[n] = v[2][0][1][0]
+        elif ty == 'marker' and v in (('path', ['std', 'marker', 'PhantomData']), ('path', ['PhantomData']), ('path', ['marker', 'PhantomData'])):
+            init[n] = 'marker'
         else:
-            raise Unsupported(f'{fname}: new initialises {n} with {v}')
-    if set(init) != {'storage'} | set(flags):
+            raise Unsupported(f'{fname}: new initialises {n} with ' + repr(v)[:80])
+    if set(init) != set(fields):
         raise Unsupported(fname + ': new does not initialise every field')
     # the flag is written nowhere else: every other occurrence must be the `.load(` in get
     for fl in flags:
@@ -361,21 +529,27 @@ def parse_grid_impl(repo, fname, lean):
         loads = len(re.findall(r'self\.' + fl + r'\.load\(', src))
         if occ != 2 + loads:
             raise Unsupported(f'{fname}: field {fl} is used other than by struct, new and load')
-    out = [f'/-- `Grid<S, T>` of {fname}' + (' (`RefCell` as a plain cell: calls are sequential)' if fields['storage'] == 'refcell' else '') + ' -/',
-           f'structure {lean} where', '  storage : Cells'] + [f'  {fl} : Bool' for fl in flags] + ['']
+    renamed = [f'`{stor}` is `storage`'] * (stor != 'storage') + [f'`{a}` is `{b}`' for a, b in flagname.items() if a != b]
+    out = [f'/-- `Grid<S, T>` of {fname}' + (' (`RefCell` as a plain cell: calls are sequential)' if fields[stor] == 'refcell' else '') +
+           ('; field ' + ', '.join(renamed) if renamed else '') + ' -/',
+           f'structure {lean} where', '  storage : Cells'] + [f'  {flagname[fl]} : Bool' for fl in flags] + ['']
     out.append(f'def {lean}.new (storage : Cells) : {lean} := {{ ' +
-               ', '.join(['storage := storage'] + [f'{fl} := {init[fl]}' for fl in flags]) + ' }')
-    tr = GridTr(lean, fields, fname)
-    sig, body = find_fn(src, 'get')
-    if norm(sig) != 'fn get(&self, p: PointIndex) -> T':
-        raise Unsupported(fname + ': get signature ' + sig)
+               ', '.join(['storage := storage'] + [f'{flagname[fl]} := {init[fl]}' for fl in flags]) + ' }')
+    tr = GridTr(lean, fields, flagname, fname)
+    ms = re.fullmatch(r'fn get\(&self, (\w+): PointIndex\) -> T', norm(fns['get']['sig']))
+    if not ms:
+        raise Unsupported(fname + ': get signature ' + norm(fns['get']['sig']))
+    tr.p = ms.group(1)
+    blk = parse_body(fns['get']['body'])
     out += ['/-- `none` = panic (index out of bounds) -/',
-            f'def {lean}.get (k : Kind) (e : Ext) (self : {lean}) (p : Pt) : Option Int :='] + tr.get_block(norm(body), '  ')
-    sig, body = find_fn(src, 'set')
-    if norm(sig) != 'fn set(&self, p: PointIndex, value: T)':
-        raise Unsupported(fname + ': set signature ' + sig)
+            f'def {lean}.get (k : Kind) (e : Ext) (self : {lean}) (p : Pt) : Option Int :='] + tr.get_seq(blk[1], blk[2], {}, '  ', None)
+    ms = re.fullmatch(r'fn set\(&self, (\w+): PointIndex, (\w+): T\)', norm(fns['set']['sig']))
+    if not ms:
+        raise Unsupported(fname + ': set signature ' + norm(fns['set']['sig']))
+    tr.p, tr.v = ms.group(1), ms.group(2)
     out += ['/-- `none` = panic (index out of bounds), nothing stored -/',
-            f'def {lean}.set (k : Kind) (e : Ext) (self : {lean}) (p : Pt) (value : Int) : Option {lean} :='] + tr.set_block(norm(body), '  ')
+            f'def {lean}.set (k : Kind) (e : Ext) (self : {lean}) (p : Pt) (value : Int) : Option {lean} :='] + \
+        tr.set_block(parse_body(fns['set']['body']), '  ')
     out.append('')
     return out
 
